@@ -1,6 +1,6 @@
 use crate::{
     cfg::Cfg,
-    parser::InstructionProperties,
+    parser::{InstructionProperties, ParserNode},
     passes::{CfgError, GenerationPass},
 };
 
@@ -17,7 +17,15 @@ impl GenerationPass for EliminateDeadCodeDirectionsPass {
             changed = false;
             let old = nodes.clone();
             for node in nodes {
-                if node.is_return() || node.is_any_entry() || node.might_terminate() {
+                // An indirect jump (`jr t0`) leaves to an address the graph
+                // does not know, like a return: it is no dead end
+                let indirect_jump = node.is_unconditional_jump()
+                    && matches!(node.node(), ParserNode::JumpLinkR(_));
+                if node.is_return()
+                    || indirect_jump
+                    || node.is_any_entry()
+                    || node.might_terminate()
+                {
                     continue;
                 }
                 // If the node has no nexts, remove it from the prevs of all its prevs
